@@ -100,6 +100,53 @@ for _src, _want, _why in (
         ("func f() { f = 2 }\nfunc g() { f() }\ng()\nf", "i:2", "the assignment happens in the declaring scope also when the call comes from another function")):
     EXPECT.append({"src": _src, "field": "result", "want": _want, "why": _why})
 
+# a construct that ends by an error - in whichever of its clauses the error arises - hands back the scope it started
+# in: the catch and finally blocks of an enclosing try read and assign the names of the block the try stands in
+_BOOM = "func boom() { throw \"b\" }\n"
+ERR_CONSTRUCTS = [
+    ("post clause of a C-style for", "for i = 0; i < 3; i += boom() { var x = \"inner\" }"),
+    ("post clause of a C-style for (a runtime error)", "for i = 0; i < 3; i += [1][i + 1] { var x = \"inner\" }"),
+    ("post clause of a C-style for (an undefined name)", "for i = 0; i < 3; i += nosuchname { var x = \"inner\" }"),
+    ("post clause after continue", "for i = 0; i < 3; boom() { var x = \"inner\"; continue }"),
+    ("condition of a C-style for", "for i = 0; boom(); i++ { var x = \"inner\" }"),
+    ("condition of a C-style for, second evaluation", "for i = 0; i < 1 || boom(); i++ { var x = \"inner\" }"),
+    ("init clause of a C-style for", "for i = boom(); i < 3; i++ { }"),
+    ("body of a C-style for", "for i = 0; i < 3; i++ { var x = \"inner\"; boom() }"),
+    ("post clause of an inner C-style for", "for i = 0; i < 2; i++ { var x = \"mid\"; for j = 0; j < 2; j += boom() { var x = \"inner\" } }"),
+    ("body of a for-in over a list (the loop variable is x)", "for x in [1, 2] { boom() }"),
+    ("iterable of a for-in", "for x in boom() { }"),
+    ("body of a for-in", "for v in [1] { var x = \"inner\"; boom() }"),
+    ("body of a for-in over a map", "for k, x in {\"k\": 1} { boom() }"),
+    ("body of a for-in over a channel", "c = make(chan int64, 2); c <- 1; c <- 2; for x in c { boom() }"),
+    ("body of a condition loop", "for true { var x = \"inner\"; boom() }"),
+    ("condition of a condition loop", "for boom() { }"),
+    ("body of if", "if true { var x = \"inner\"; boom() }"),
+    ("condition of if", "if boom() { }"),
+    ("condition of else if", "if false { } else if boom() { }"),
+    ("body of else if", "if false { } else if true { var x = \"inner\"; boom() }"),
+    ("body of else", "if false { } else { var x = \"inner\"; boom() }"),
+    ("operand of switch", "switch boom() {\ncase 1: 1\n}"),
+    ("case expression", "switch 1 {\ncase boom(): 1\n}"),
+    ("case body", "switch 1 {\ncase 1: var x = \"inner\"; boom()\n}"),
+    ("default body", "switch 1 {\ndefault: var x = \"inner\"; boom()\n}"),
+    ("catch block of an inner try", "try { var x = \"inner\"; boom() } catch e1 { var x = \"inner2\"; boom() }"),
+    ("finally block of an inner try", "try { boom() } catch e1 { } finally { var x = \"inner\"; boom() }"),
+    ("module body", "module mm { var x = \"inner\"; boom() }"),
+    ("function body", "func() { var x = \"inner\"; boom() }()"),
+    ("function body reached through a loop", "for i = 0; i < 2; i++ { func() { var x = \"inner\"; boom() }() }"),
+]
+for _where, _c in ERR_CONSTRUCTS:
+    _n = _c.replace("\n", " ")
+    EXPECT.append({"src": _BOOM + "x = \"outer\"; r = []\ntry { %s } catch e { r += x; x = \"assigned\" } finally { r += x }\nr += x\nr" % _c, "field": "result",
+                   "want": "[s:6f75746572,s:61737369676e6564,s:61737369676e6564]",
+                   "why": "an error in the %s (`%s`): catch and finally of the enclosing try read and assign the x of their own block" % (_where, _n)})
+    EXPECT.append({"src": _BOOM + "func f(x) { try { %s } catch e { x = x + 1 }; return x }\nf(5)" % _c.replace("\"inner\"", "0").replace("\"inner2\"", "0").replace("\"mid\"", "0"),
+                   "field": "result", "want": "i:6",
+                   "why": "an error in the %s (`%s`) inside a function: the catch block reads and assigns the parameter" % (_where, _n)})
+for _head in ("for kk = 0; kk < 3; kk += boom() { }", "for kk = 0; boom(); kk++ { }", "for kk in [1] { boom() }", "for kk = 0; kk < 3; kk++ { boom() }"):
+    EXPECT.append({"src": _BOOM + "r = \"gone\"\ntry { %s } catch e { try { r = kk } catch e2 { } }\nr" % _head, "field": "result", "want": "s:676f6e65",
+                   "why": "the loop variable of `%s` is not visible in the catch block of an enclosing try" % _head})
+
 
 def run(tier, seed, replay=None):
     return interpcheck.run_interp_check(
